@@ -42,6 +42,10 @@ def build(name="SH"):
     m.add("I5", Type("INTEGER", value_c=rng_(-129, 100)))
     m.add("I6", Type("INTEGER", value_c=rng_(-10, 32768)))
     m.add("I7", Type("INTEGER", value_c=rng_(-2147483649, 5)))
+    # ranges that end exactly on, one below and one above the limits of the fixed OER widths (X.696 10) and of the PER
+    # range-octet counts: the compiler emits the width table, off-by-one there changes the wire format only at the limit
+    for i_, (lo_, hi_) in enumerate(WIDTH_EDGES):
+        m.add("W%d" % i_, Type("INTEGER", value_c=rng_(lo_, hi_)))
     # sizes whose upper bound is 64K or more while the range is narrow (unconstrained length form, X.691 11.9)
     m.add("Z1", Type("OCTET STRING", size_c=rng_(65530, 65540)))
     m.add("Z2", Type("IA5String", size_c=rng_(1, 65536)))
@@ -378,6 +382,10 @@ def values5(mod, name, rng, quick):
     return out
 
 
+WIDTH_EDGES = [(0, 255), (0, 256), (0, 254), (0, 65535), (0, 65536), (0, 4294967295), (0, 4294967294), (0, 4294967296),
+               (-128, 127), (-129, 127), (-128, 128), (-32768, 32767), (-32769, 32767), (-2147483648, 2147483647),
+               (-2147483648, 2147483648), (1, 256), (1, 65536), (0, 18446744073709551615), (-9223372036854775808, 9223372036854775807)]
+
 LEN_16K = sorted(set(b + d for b in (16384, 32768, 49152, 65536) for d in range(-4, 3)))
 
 
@@ -447,6 +455,9 @@ def values(mod, name, rng, quick):
         out += [-10, 0, 127, 128, 32767, 32768]
     elif name == "I7":
         out += [-2147483649, -2147483648, -1, 5]
+    elif name[0] == "W" and name[1:].isdigit():
+        lo_, hi_ = WIDTH_EDGES[int(name[1:])]
+        out += sorted(set([lo_, hi_, lo_ + 1, hi_ - 1, 0 if lo_ <= 0 <= hi_ else lo_, (lo_ + hi_) // 2]))
     elif name == "Z1":
         out += [bytes((i * 3) & 0xff for i in range(n)) for n in (65530, 65535, 65536, 65540)]
     elif name == "Z2":
